@@ -457,8 +457,20 @@ MANIFEST = {
 _run_core = run
 
 
+def _relay_guarded(chk):
+    from checks import c16_relay
+    try:
+        c16_relay.run_relay_part(chk, chk.tier == "quick")
+    except vlib.Inconclusive as e:
+        chk.fail(str(e))
+    except Exception:  # noqa
+        import traceback
+        chk.fail("internal error in the relay part:\n" + traceback.format_exc())
+
+
 def run(chk, args):
     import json as _json
+    import threading as _threading
     only = set(args.only.split(",")) if args.only else None
     if args.replay:
         with open(args.replay) as fh:
@@ -466,17 +478,28 @@ def run(chk, args):
         if isinstance(rp, dict) and rp.get("kind") in ("periodic", "nat", "nat-race"):
             from checks import c16_nat
             return c16_nat.replay(chk, rp)
+        if isinstance(rp, dict) and rp.get("kind") == "relay":
+            from checks import c16_relay
+            return c16_relay.replay(chk, rp)
         return _run_core(chk, args)
-    ext = {"periodic", "nat"}
+    ext = {"periodic", "nat", "relay"}
     if only is None:
-        # the extension parts run in a thread next to the real-time replays of the core part
+        # the extension parts run in threads next to the real-time replays of the core part
         from checks import c16_nat
-        return _run_core(chk, args, side=lambda: c16_nat.run_parts(chk, args))
+
+        def side():
+            th = _threading.Thread(target=_relay_guarded, args=(chk,))
+            th.start()
+            c16_nat.run_parts(chk, args)
+            th.join()
+        return _run_core(chk, args, side=side)
     if only - ext:
         _run_core(chk, args)
-    if only & ext:
+    if "relay" in only:
+        _relay_guarded(chk)
+    if only & {"periodic", "nat"}:
         from checks import c16_nat
-        if only is None or ext <= only:
+        if {"periodic", "nat"} <= only:
             c16_nat.run_parts(chk, args)
         elif "periodic" in only:
             c16_nat.run_periodic_part(chk, args)
